@@ -112,7 +112,10 @@ pub fn record(run: &Run, name: &str, u: &crate::universe::Universe, cfg: &Cfg, s
         run.cap_hit(&format!("{name}: depth bound {} reached with a non-empty frontier", cfg.max_depth));
     }
     for f in failures {
-        let key = format!("{name}:{}", f.history.iter().map(|o| format!("{o:?}")).collect::<Vec<_>>().join(";"));
+        let key = match f.signature() {
+            Some(sig) => sig.to_string(),
+            None => format!("{name}:{}", f.history.iter().map(|o| format!("{o:?}")).collect::<Vec<_>>().join(";")),
+        };
         run.fail("history", key, f.msg, json!({"universe": name, "ops": f.history}));
     }
 }
